@@ -66,6 +66,12 @@ MUTANTS = [
     ('chacha20_core: rotation 12 -> 13 in the quarter round', 'chacha20.c',
      'c+=d; b^=c; b=ROTL(b,12);', 'c+=d; b^=c; b=ROTL(b,13);',
      'contracts.c.chacha20', ['chacha20_core'], None, None),
+    ('OCB_start_operation: L table loop shortened to i<BLOCK_SIZE (L[16..64] stay zero)', 'raw_ocb.c',
+     '    for (i=1; i<=64; i++)\n        double_L(&state->L[i], &state->L[i-1]);', '    for (i=1; i<BLOCK_SIZE; i++)\n        double_L(&state->L[i], &state->L[i-1]);',
+     'contracts.c.raw_ocb', ['OCB_start_operation'], ['default'], None),
+    ('double_L: reduction constant 0x87 -> 0x86', 'raw_ocb.c',
+     '(carry & 0x87)', '(carry & 0x86)',
+     'contracts.c.raw_ocb', ['double_L'], None, None),
     ('MD4: writable static buffer re-introduced (finding D12)', 'MD4.c',
      '    static const uint8_t padding[64] = {', '    static uint8_t s_len[8];\n    static const uint8_t padding[64] = {',
      'scan:static_const', None, None, 'scan'),
